@@ -22,10 +22,10 @@ NewSample == /\ More /\ Ev.op = "new_sample" /\ Ev.N >= 1
              /\ sel' = [kind |-> "sample", N |-> Ev.N]
 
 (* the abstract answer: for a slice it is unique, for a sample any spread satisfying SampleAbs *)
-IdxOK(n, r) == IF sel.kind = "slice" THEN r = PySlice(sel.a, sel.b, sel.c, n)
+IdxOK(n, r) == IF sel.kind = "slice" THEN r = PySliceAny(sel.a, sel.b, sel.c, n)
                ELSE SampleAbs(sel.N, n, r)
-CountOK(n, r) == IF sel.kind = "slice" THEN r = PyCount(sel.a, sel.b, sel.c, n) ELSE r = Min2(sel.N, n)
-FirstOK(n, r) == IF sel.kind = "slice" THEN (PyCount(sel.a, sel.b, sel.c, n) > 0 => r = PyStart(sel.a, n))
+CountOK(n, r) == IF sel.kind = "slice" THEN r = PyCountAny(sel.a, sel.b, sel.c, n) ELSE r = Min2(sel.N, n)
+FirstOK(n, r) == IF sel.kind = "slice" THEN (PyCountAny(sel.a, sel.b, sel.c, n) > 0 => r = PySliceAny(sel.a, sel.b, sel.c, n)[1])
                  ELSE (n > 0 => r = 0)
 
 Indices == More /\ Ev.op \in {"indices", "gen_indices"} /\ sel.kind # "none" /\ IdxOK(Ev.n, Ev.r) /\ UNCHANGED sel
